@@ -446,6 +446,25 @@ def main(argv):
         unit_reports.append({"unit": unit, "auto_included_helpers": getattr(ur, "auto_included", []), "verified": ur.vr.get("verified"), "errors": ur.vr.get("errors"), "verus_wall_s": round(ur.run["wall"], 2),
                              "canary_verified": cr.vr.get("verified"), "canary_errors": cr.vr.get("errors")})
 
+    # ---- thorough tier extras: proof stability and regression observations (neither decides the property) ----
+    stability, observation = [], None
+    if tier == "thorough" and not undecided:
+        for unit in cfg["units"]:
+            pth = os.path.join(gen_dir, unit + ".rs")
+            if not os.path.exists(pth):
+                continue
+            r2 = run_verus(pth, 5, rlimit=3)          # default rlimit is 10: a proof that needs more than 30% of it is flagged
+            hits = [d.get("message", "") for d in r2["diags"] if d.get("level") == "error" and RLIMIT_PAT.search(d.get("message", ""))]
+            bd = func_breakdown(r2["json"])
+            top = sorted(((sum(e.get("rlimit", 0) for e in lst), full) for full, lst in bd.items()), reverse=True)[:3]
+            stability.append({"unit": unit, "rlimit_3_exceeded": hits[:5], "most_expensive": [{"function": f, "rlimit_units": rl} for rl, f in top]})
+        try:
+            import witness as wmod
+            if prop in wmod.FINDERS:
+                observation = wmod.find(prop, None, tier)
+        except Exception as e:   # the driver is optional
+            observation = {"found": False, "note": f"witness scenarios not run: {e}"}
+
     # ---- assumption guard (C06 only; never a violation) ----
     if cfg.get("assumption_guard") and not undecided:
         import assumption_guard
@@ -521,6 +540,8 @@ def main(argv):
             "undecided": undecided,
             "known_findings_reported": kf_lines,
             "extra": extra,
+            "proof_stability_rlimit3": stability,
+            "regression_observation_on_real_crate": observation,
             "obligation_counting_rule": "one obligation per ensures/loop-invariant/decreases clause per function under contract, one aggregated safety obligation per function (overflow, bounds, unwrap, unreached, callee preconditions, source assert!/debug_assert!), one per lemma; a clause is discharged iff Verus produced a query for the function and no verifier diagnostic names the clause",
         },
         "assumptions": assumptions,
@@ -570,6 +591,10 @@ def main(argv):
             locs = ",".join(sorted({l for l in rec["failed_at_repo_lines"] if l}))
             print(f"VIOLATION property={prop} replay={rp} obligation={o['id']} at={locs or o.get('where')}{tail}")
         return 1
+    if observation and observation.get("found"):
+        # NOT a verdict of this check: a concrete scenario misbehaves on the real crate although every obligation of the
+        # functions under contract is discharged (i.e. the cause lies outside them, or in an assumption)
+        print(f"OBSERVATION property={prop} concrete scenario fails on the real crate although all obligations hold: {str(observation.get('what') or observation.get('input'))[:300]}")
     print(f"OK property={prop} tier={tier} obligations={n_ob} discharged={n_dis} units={','.join(cfg['units'])} wall={wall:.1f}s")
     return 0
 
